@@ -337,5 +337,6 @@ func Extract() *fx.Group {
 	} else {
 		g.Missing("setCacheSizeCalls")
 	}
+	sharedFacts(g)
 	return g
 }
